@@ -283,6 +283,8 @@ type batchResult struct {
 	WallS      float64
 	Violating  []*sim.RunResult
 	Samples    []*sim.RunResult
+	Recycled   int // worker processes replaced because of their memory
+	MaxSysMB   int
 }
 
 func runBatch(b *built, prop, tier string, seed uint64, avoid []string, cfg tierCfg, name string) *batchResult {
@@ -304,9 +306,11 @@ func runBatch(b *built, prop, tier string, seed uint64, avoid []string, cfg tier
 		go func(i int) {
 			defer wg.Done()
 			from := i
-			for attempt := 0; attempt < 4; attempt++ {
+			gen := 0
+			for attempt := 0; attempt < 4; {
+				gen++
 				a := sim.WorkerArgs{Prop: prop, Seed: seed, From: from, To: cfg.Runs, Stride: nw, Mode: "explore", Tier: tier, Avoid: avoid,
-					Out: filepath.Join(b.scratch, fmt.Sprintf("out-%s-%d-%d.json", name, i, attempt)), WallS: cfg.WallS - time.Since(start).Seconds(), Samples: 1, MaxViol: 6}
+					Out: filepath.Join(b.scratch, fmt.Sprintf("out-%s-%d-%d.json", name, i, gen)), WallS: cfg.WallS - time.Since(start).Seconds(), Samples: 1, MaxViol: 6}
 				if a.WallS < 1 {
 					a.WallS = 1
 				}
@@ -314,11 +318,23 @@ func runBatch(b *built, prop, tier string, seed uint64, avoid []string, cfg tier
 				mu.Lock()
 				if out != nil {
 					br.Outs = append(br.Outs, out)
+					if out.NextFrom > 0 {
+						br.Recycled++
+					}
+					if out.SysMB > br.MaxSysMB {
+						br.MaxSysMB = out.SysMB
+					}
 				}
 				mu.Unlock()
 				if err == nil {
+					if out != nil && out.NextFrom > 0 && out.NextFrom < cfg.Runs && cfg.WallS-time.Since(start).Seconds() > 1 {
+						// the worker gave up its process because of its memory: carry on in a fresh one
+						from = out.NextFrom
+						continue
+					}
 					return
 				}
+				attempt++
 				// the worker died: find the run it was on and classify
 				jb, _ := os.ReadFile(a.Out + ".journal")
 				run, jerr := strconv.Atoi(strings.TrimSpace(string(jb)))
@@ -798,7 +814,7 @@ func writeEvidence(prop, tier string, seed uint64, b *built, batches []*batchRes
 			}
 			samples = append(samples, map[string]interface{}{"batch": br.Name, "run": s.Run, "run_seed": s.Seed, "scenario": scen, "strategy": s.Strategy, "steps": s.Steps, "sim_time_s": float64(s.SimNs) / 1e9, "faults": s.Faults, "event_log_head": lg})
 		}
-		batchInfo = append(batchInfo, map[string]interface{}{"name": br.Name, "avoided_known_triggers": br.Avoid, "runs": br.Runs, "non_trivial": br.Nontrivial, "wall_s": br.WallS, "violating_runs": len(br.Violating), "longest_run_steps": br.MaxSteps, "known_triggers_present_in_runs": br.Triggers})
+		batchInfo = append(batchInfo, map[string]interface{}{"name": br.Name, "avoided_known_triggers": br.Avoid, "runs": br.Runs, "non_trivial": br.Nontrivial, "wall_s": br.WallS, "violating_runs": len(br.Violating), "longest_run_steps": br.MaxSteps, "known_triggers_present_in_runs": br.Triggers, "worker_processes_recycled_for_memory": br.Recycled, "largest_worker_sys_mb": br.MaxSysMB})
 	}
 	faultFree := 0
 	_ = faultFree
